@@ -57,7 +57,7 @@ Qed.
 
 Definition elems_rel (f : ifn) (new old : list hval) : Prop :=
   match f with
-  | FReverse | FLower | FUpper => new = old
+  | FReverse | FLower | FUpper | FComplement | FRc => new = old
   | FSortLen => Permutation new old
   | FFilterLen _ => sublist new old
   | FIaddLit _ => False
@@ -72,6 +72,8 @@ Proof.
   rewrite P in P'. inversion P'; subst v'. clear P'. apply interp_rd in E. destruct E as (l0 & c0 & L0 & N0 & Hl & E).
   inversion L0; subst l0. rewrite N in N0. inversion N0; subst c0. clear L0 N0.
   unfold inplace_cmd in E. rewrite K in E. destruct f; cbn [seq_fn] in E.
+  - exists c. split; [eapply interp_foreach_seq; [exact E|exact N|congruence]|]. cbn. auto.
+  - exists c. split; [eapply interp_foreach_seq; [exact E|exact N|congruence]|]. cbn. auto.
   - exists c. split; [eapply interp_foreach_seq; [exact E|exact N|congruence]|]. cbn. auto.
   - exists c. split; [eapply interp_foreach_seq; [exact E|exact N|congruence]|]. cbn. auto.
   - exists c. split; [eapply interp_foreach_seq; [exact E|exact N|congruence]|]. cbn. auto.
